@@ -10,6 +10,8 @@ N="${SELFTEST_RUNS:-4000}"
 TMP="$(mktemp -d /var/tmp/verif-selftest.XXXXXX)"
 trap 'rm -rf "$TMP"' EXIT
 fail=0
+# build from /repo's current tree first (the binaries may be stale)
+(cd "$ROOT/sim" && CARGO_NET_OFFLINE=true RUSTFLAGS="--cfg concordium_base_verif" cargo build --release --offline -q --workspace --exclude trieshuttle) || { echo "selftest: build failed"; exit 2; }
 run() { # engine property scale
   local E="$1" P="$2" S="$3"
   for w in 1 16; do
